@@ -265,6 +265,17 @@ C06cap(st, q, post) ==
       => /\ q[k][2] = UnplacedRank
          /\ (q[k][1] \in AppNames(post) => post.apps[q[k][1]].server = NoServer)
 
+(* ... and ONLY such an instance is left out: without a cap, or with the       *)
+(* cumulative demand within it, an instance is ranked.  (A priority-0 instance  *)
+(* of a capped allocation counts as beyond any cap: its utilisation is "max".)  *)
+C06capOnly(st, q) ==
+  \A k \in DOMAIN q :
+    LET a == QApp(st, q[k]) al == st.allocs[a.alloc]
+        after == CumDemand(st, q, k, TRUE) IN
+    (al.maxutil = NoNum
+     \/ (a.prio > 0 /\ \A d \in DOMAIN after : after[d] <= al.maxutil * al.reserved[d]))
+      => q[k][2] # UnplacedRank
+
 C06ex(st, q) == /\ Len(q) >= 3
                 /\ Cardinality({QApp(st, q[i]).alloc : i \in DOMAIN q}) >= 2
                 /\ Cardinality({QApp(st, q[i]).prio : i \in DOMAIN q}) >= 2
